@@ -22,6 +22,7 @@ NOTES = {
  "C04-1": "NOT reported: SampleWhen forgets to clear its has-value flag (re-emits the last value on every tick) - value level",
  "C04-2": "first missed by C04 (reported by C12); STATE-LEVEL added to C04",
  "C04-3": "NOT reported: Max seeds its maximum with the zero value (wrong result for all-negative input) - value level",
+ "C16-1": "first missed; WATCHDOG-REARM added", "C16-2": "first missed; STATE-LEVEL added to C16 (the counter of a periodic source is per-subscription state)",
  "C20-2": "first missed by C20 (reported by C12): a change to core GroupBy; C20 now re-checks the core premises of the native limiter", "C20-3": "first missed by C20 (reported by C10/C02): a change to the core unicast subject; C20 now re-checks the core premises of the native limiter",
 }
 
